@@ -49,9 +49,10 @@ out = ["",
        "(nothing from `/verif`) and asked for changes that break the property, still compile, keep the 59-test",
        "suite green and need something specific to manifest. Round 1: two changes per property (38). Round 2",
        "(14 properties): the first round's changes as an avoid-list and a demand for state-dependent or",
-       "two-site changes (28). Round 3 (10 properties): additionally told, in general terms, what kind of",
-       "tester they were up against (parameter sweeps, forged packets with every header/length/PEC variation,",
-       "random histories, byte-for-byte comparison) and asked for changes such a tester could still miss (18).",
+       "two-site changes (28). Rounds 3 (10 properties, 18 changes; one agent failed) and 4 (the other 9",
+       "properties, 18 changes): additionally told, in general terms, what kind of tester they were up against",
+       "(parameter sweeps, forged packets with every header/length/PEC variation, random histories,",
+       "byte-for-byte comparison) and asked for changes such a tester could still miss.",
        "Each change was re-confirmed by `tools/verify_mutant.sh` in a fresh worktree (patch applies, suite passes",
        "with it, the demonstration fails with it and passes without) before being kept under `seeded/<id>/`.",
        "Five more are the reverse patches of the `fix:` commits. A further group of sub-agents wrote 15 *harmless",
@@ -89,6 +90,23 @@ out = ["",
        "  (C14-r3-1), bodies ≥ 65 536 bytes (C04-r3-1), buffers one byte short (C04-r3-2), assignments processed",
        "  into tiny buffers (C13-r3-1), the IC bit on minimal-length packets (C10-r3-2, missed by the quick",
        "  tier's stride until header bytes 4 and 8 were swept completely on 10–15-byte packets).",
+       "* Round 4 (adversarial, 9 encoder/table-side properties) was run against the checks *as they stood*: 9 of",
+       "  18 were caught by the target check at once. Of the 9 misses, 3 are changes that do not break the targeted",
+       "  property itself and are caught by the properties they do break (C07-r4-1 → C13, C07-r4-2 → C15,",
+       "  C19-r4-2 → C10/C11; they stay listed as not caught by their nominal target), and 6 exposed gaps that were",
+       "  then closed: buffers still holding an older well-formed packet (C03-r4-2 → `G.stale`), destinations",
+       "  equal to the context's own address / stored EIDs (C08-r4-1), configuration shapes relating message-type",
+       "  codes to vendor formats (C15-r4-2), state probes for the identity queries (C15-r4-1), the probe after",
+       "  processed traffic and on inputs of 256–514 / 65 536 bytes (C17-r4-1, C17-r4-2), and — the most",
+       "  instructive — C19-r4-1: a *consistent renumbering* of two enum variants keeps `from(b) as u8 == b`, so",
+       "  the conversions are now observed by variant **name** as well as by value. C09-r3-2 turned out to have",
+       "  been caught by luck (a random data byte) and is now covered by complete data-byte sweeps of the",
+       "  fixed-length commands.",
+       "* The Lean-side counterpart of these experiments is `Props/JudgeSound*.lean`: it proves that the judge",
+       "  never says `fail` about the model. Proving it found three clauses where the judge was stricter than",
+       "  the theorems on calls outside the documented argument shapes (routing entries that are not whole, a",
+       "  vendor ID field of ≥ 246 bytes, completion codes above 5 — none reachable through the Rust API, the",
+       "  executor refuses them); the judge was corrected.",
        "",
        "| id | breaks | change | caught by (quick) |",
        "|---|---|---|---|"]
